@@ -1963,8 +1963,10 @@ func (t *Topic) anotherUserSub(sess *Session, asUid, target types.Uid, asChan bo
 		return nil, errors.New("topic access denied; approver has no permission")
 	}
 
-	if asChan {
+	if asChan || t.perUser[target].isChan {
 		// TODO: need to implement promoting reader to subscriber. Rejecting for now.
+		// The target may be a channel reader who is attached right now: the only cached record of
+		// the user is the reader's one, changing it would grant permissions in memory only.
 		sess.queueOut(ErrPermissionDeniedReply(pkt, now))
 		return nil, errors.New("topic access denied: cannot subscribe reader to channel")
 	}
